@@ -83,6 +83,9 @@ func c05Witnesses() []c05Witness {
 		c05Witness{"last-sheet-delete", []string{"h.open Book1.xlsx", "h.delsheet " + s2, "h.chartsheet " + hx("Chart1") + " " + s1 + " 4", "h.delsheet " + s1, "h.save", "h.reopen", "h.delsheet " + hx("Chart1"), "h.save"}},
 		c05Witness{"stream-then-deletesheet", []string{"h.new", "h.link " + s1 + " D16 " + hx("mailto:a@b.c") + " 0", "h.newsheet " + hx("Stream1"), "h.stream.new " + s1, "h.delsheet " + s1, "h.save"}},
 		c05Witness{"formctl-badcell-delcomment", []string{"h.new", "h.formctl " + s1 + " XFE1 0 " + hx("m"), "h.delcomment " + s1 + " B15", "h.save"}},
+		c05Witness{"pic-badcell-media", []string{"h.new", "h.pic " + s1 + " A-1 0 12", "h.save"}},
+		c05Witness{"hfimage-shared-media-delpic", []string{"h.new", "h.hfimage " + s1 + " 5", "h.pic " + s1 + " D6 0 28", "h.delpic " + s1 + " D6", "h.save"}},
+		c05Witness{"background-shared-media-delpic", []string{"h.new", "h.background " + s1 + " 1", "h.pic " + s1 + " A13 1 29", "h.delpic " + s1 + " A13", "h.save"}},
 		c05Witness{"vba-write", []string{"h.new", "h.vba", "h.save"}},
 		c05Witness{"rename-duplicate", []string{"h.new", "h.newsheet " + s2, "h.rensheet " + s1 + " " + s2, "h.save"}},
 		c05Witness{"dv-markup", []string{"h.new", "h.dv " + s1 + " " + hx("A1:A3") + " 4 1 " + hx("AND(A1<5,B1>\"&\")"), "h.save"}},
